@@ -284,6 +284,8 @@ class DFlags(Plugin):
         m = fn.pnames.get(s.dmax_name)
         s.root = d["id"]
         s.unit = {"i8*": 1, "i16*": 2, "i32*": 4, "i64*": 8}.get(d["ty"], 1)
+        if fn.name in ("_memcpy16_s_chk", "_memcpy32_s_chk", "_memmove16_s_chk", "_memmove32_s_chk", "_memset16_s_chk", "_memset32_s_chk"):
+            s.unit = 1           # these take dmax in bytes and are memory (not string) functions: 'cleared' is counted in bytes
         s.dmax = Lin.atom(m["id"]) if m and m["ty"] == "i64" else None
         s.dmaxp = m["id"] if m and m["ty"].endswith("*") else None
         bos = fn.pnames.get("destbos")
@@ -342,7 +344,7 @@ class DFlags(Plugin):
         dirty, c1, cf, nul, lst, lld, slen = pl
         at0 = p[2].is_const() and p[2].c == 0
         if zero:
-            ge1 = n is not None and (eng.decide(("cmp", "uge", n, Lin.const(1)), facts) is True)
+            ge1 = n is not None and (eng.decide(("cmp", "uge", n, Lin.const(s.unit)), facts) is True)      # at least one whole element
             if at0 and not ge1 and s.full_len(n, eng, facts):
                 ge1 = True         # the whole declared destination is cleared: if that is nothing, dmax is 0 and the exit is exempt
             if at0 and ge1:
@@ -542,6 +544,10 @@ class AFlags(Plugin):
                 if any(r == vid and stt == "live" for (r, stt) in allocs):
                     viol = viol | {("leak-overwritten", vid, name, inst.get("line"))}
                 s.pinned.add("&" + vid)
+                if getattr(s, "split_alloc", False):
+                    # the allocation succeeds or fails: two outcomes, so that 'failed and still returns success' is a visible path
+                    nz = lambda r: ("cmp", "ne", Lin.atom("&" + r[1]) + r[2], Lin.const(0))
+                    return [((s._set(allocs, vid, "live"), viol), [(nz, True)]), ((s._set(allocs, vid, "failed"), viol), [(nz, False)])]
                 return [((s._set(allocs, vid, "live"), viol), [])]
             if name == "realloc" and vid:
                 s.pinned.add("&" + vid)
@@ -576,9 +582,18 @@ class AFlags(Plugin):
         if call[0] == "lib":
             callee, args, inst, fr = call[1], call[2], call[3], call[4]
             pl2 = (allocs, viol)
-            for a in args:
+            chk = getattr(s, "null_dest_fails", None)
+            k = callee.param_index("dest")
+            for ka, a in enumerate(args):
                 if a[0] == "p":
+                    if ka == k and chk is not None and chk(callee):
+                        continue         # the callee rejects a NULL dest itself: handing it an unchecked allocation is a checked use
                     pl2 = s.deref(pl2, a, "passed to %s" % callee.name, inst, fr, eng, facts)
+            # a library function handed a NULL destination fails (its own dest-null check; confirmed per callee by null_dest_fails)
+            if chk is not None and k is not None and k < len(args) and args[k][0] == "p" and callee.j["ret_ty"] == "i32":
+                isnull = args[k][1] == "null" or eng.decide(("cmp", "eq", eng.as_lin(args[k]), Lin.const(0)), facts) is True
+                if isnull and chk(callee):
+                    return [(pl2, [(lambda r: ("cmp", "ne", r[1], Lin.const(0)) if r[0] == "i" else ("c", True), True)])]
             return [(pl2, [])]
         return [(pl, [])]
 
